@@ -7,6 +7,7 @@ import FendModel.Model.Json
 import FendModel.Model.Inline
 import FendModel.Model.StrLit
 import FendModel.Model.Date
+import FendModel.Model.IntFns
 
 open Fend Fend.Proto
 
@@ -67,6 +68,9 @@ def bigratLine (line : String) : String :=
   | ["shl", a, b] => q2 (fun x y => one (BigRat.bitwise "shl" x y)) a b
   | ["shr", a, b] => q2 (fun x y => one (BigRat.bitwise "shr" x y)) a b
   | ["cmp", a, b] => q2 (fun x y => match x.cmp y with | some o => "ok " ++ showOrd o | none => "err panic") a b
+  | ["floor", a] => q1 (fun x => one (BigRat.roundWith .floor x)) a
+  | ["ceil", a] => q1 (fun x => one (BigRat.roundWith .ceil x)) a
+  | ["round", a] => q1 (fun x => one (BigRat.roundWith .round x)) a
   | ["neg", a] => q1 (fun x => one (.ok x.negate)) a
   | ["simplify", a] => q1 (fun x => one x.simplify) a
   | ["factorial", a] => q1 (fun x => one x.factorial) a
@@ -168,6 +172,27 @@ def dateLine (line : String) : String :=
     | _, _, _ => "bad-op"
   | _ => "bad-op"
 
+/-- `roman N` | `words N` | `char N`: text results as hex code points -/
+def intfnLine (line : String) : String :=
+  match line.trimAscii.toString.splitOn " " with
+  | ["roman", n] => match n.toNat? with
+    | some k => match Fend.IntFns.roman k with
+      | .ok s => "ok " ++ showCps s
+      | .zero => "err romanZero"
+      | .outOfRange => "err outOfRange"
+    | none => "bad-op"
+  | ["words", n] => match n.toNat? with
+    | some k => match Fend.IntFns.toWords k with
+      | some s => "ok " ++ showCps (s.toList.map Char.toNat)
+      | none => "err outOfRange"
+    | none => "bad-op"
+  | ["char", n] => match n.toNat? with
+    | some k => match Fend.IntFns.charOf k with
+      | some c => "ok " ++ showCps [c]
+      | none => "err invalidCodepoint"
+    | none => "bad-op"
+  | _ => "bad-op"
+
 partial def loop (h : IO.FS.Stream) (out : IO.FS.Stream) (f : String → String) : IO Unit := do
   let line ← h.getLine
   if line.isEmpty then return ()
@@ -185,4 +210,5 @@ def main (args : List String) : IO UInt32 := do
   | ["inline"] => loop stdin stdout inlineLine; return 0
   | ["strlit"] => loop stdin stdout strlitLine; return 0
   | ["date"] => loop stdin stdout dateLine; return 0
+  | ["intfn"] => loop stdin stdout intfnLine; return 0
   | _ => IO.eprintln "usage: fend_model_driver <stream>"; return 2
